@@ -76,3 +76,59 @@ M('C12', 'normalise-by-abs-sum', (MV, "value_sum = sum(tracked_values.values())"
 M('C12', 'N-counts-keys', (MV, "        self.N += 1\n        return self", "        self.N += max(len(values), 1)\n        return self"))
 M('C12', 'single-key-normalised', (MV, "if len(self._tracked_keys) <= 1:", "if len(self._tracked_keys) < 1:"))
 M('C12', 'zero-fill-only-once-seen-twice', (MV, "for key in self._tracked_keys - keys_in_update:", "for key in (self._tracked_keys - keys_in_update if self.N > 1 else ()):"))
+
+# ---- C01 / C03 ---------------------------------------------------------------------------------
+INC = 'ixai/explainer/sage/incremental.py'
+EB = 'ixai/explainer/base.py'
+M('C01', 'drop-carry-over', (INC, "                sample_loss = feature_loss\n", ""))
+M('C01', 'marginal-tracker-fed-model-loss', (INC, "self._marginal_loss_tracker.update(sample_loss)", "self._marginal_loss_tracker.update(model_loss)"))
+M('C01', 'offset-one-sided', (INC, "return self._model_loss_tracker.get() + self._loss_direction", "return self._model_loss_tracker.get()"))
+M('C01', 'importance-tracker-other-alpha', (EB, "self._importance_trackers: MultiValueTracker = MultiValueTracker(copy.deepcopy(base_tracker))",
+   "self._importance_trackers: MultiValueTracker = MultiValueTracker(ExponentialSmoothingTracker(alpha=self._smoothing_alpha / 2) if dynamic_setting else copy.deepcopy(base_tracker))"))
+M('C01', 'impute-coalition-not-complement', (INC, "feature_subset=features_not_in_s,", "feature_subset=set(self.feature_names) - features_not_in_s,"))
+M('C01', 'float-coercion-of-losses', (INC, "model_loss = self._loss_function(y_i, y_i_pred)", "model_loss = float(self._loss_function(y_i, y_i_pred))"), kind='equivalent')
+M('C03', 'float-coercion-of-losses', (INC, "model_loss = self._loss_function(y_i, y_i_pred)", "model_loss = float(self._loss_function(y_i, y_i_pred))"), kind='equivalent')
+M('C03', 'credit-rotated', (INC, "            self._importance_trackers.update(marginal_contributions)",
+   "            _v = list(marginal_contributions.values())\n            marginal_contributions = dict(zip(marginal_contributions.keys(), _v[1:] + _v[:1]))\n            self._importance_trackers.update(marginal_contributions)"))
+M('C03', 'impute-coalition-not-complement', (INC, "feature_subset=features_not_in_s,", "feature_subset=set(self.feature_names) - features_not_in_s,"))
+M('C03', 'mean-of-losses', (INC, "                feature_loss = self._loss_function(y_i, y)", "                feature_loss = sum(self._loss_function(y_i, p) for p in predictions) / len(predictions)"))
+M('C03', 'unnormalised-marginal-prediction', (INC, "self.marginal_prediction = self._marginal_prediction_tracker.get_normalized()", "self.marginal_prediction = self._marginal_prediction_tracker.get()"))
+M('C03', 'stale-variance', (INC, """            self._importance_trackers.update(marginal_contributions)
+            variances = {
+                feature: (marginal_contributions[feature] - self.importance_values[feature])**2
+                for feature in self.feature_names
+            }
+""", """            variances = {
+                feature: (marginal_contributions[feature] - self.importance_values.get(feature, 0))**2
+                for feature in self.feature_names
+            }
+            self._importance_trackers.update(marginal_contributions)
+"""))
+M('C03', 'missing-label-skipped', (EB, "sum([output.get(label, 0) for output in model_outputs]) / len(model_outputs)",
+   "sum([output[label] for output in model_outputs if label in output]) / len([o for o in model_outputs if label in o])"))
+M('C03', 'offset-one-sided', (INC, "return self._model_loss_tracker.get() + self._loss_direction", "return self._model_loss_tracker.get()"))
+M('C03', 'permutation-via-shuffle', (INC, """            permutation_chain = [self.feature_names[index] for index in
+                                 np.random.permutation(len(self.feature_names))]""",
+   """            permutation_chain = list(self.feature_names)
+            np.random.shuffle(permutation_chain)"""), kind='equivalent')
+M('C03', 'revert-fix-mixed-names', (INC, """            permutation_chain = [self.feature_names[index] for index in
+                                 np.random.permutation(len(self.feature_names))]""",
+   """            permutation_chain = np.random.permutation(self.feature_names)"""))
+
+# ---- C02 ---------------------------------------------------------------------------------------
+PFI = 'ixai/explainer/pfi.py'
+M('C02', 'sign-flip', (PFI, "pfi[feature] = avg_loss - original_loss", "pfi[feature] = original_loss - avg_loss"))
+M('C02', 'mean-to-sum', (PFI, "avg_loss = np.mean(losses)", "avg_loss = np.sum(losses)"))
+M('C02', 'mean-to-median', (PFI, "avg_loss = np.mean(losses)", "avg_loss = sorted(losses)[len(losses) // 2]"))
+M('C02', 'first-sample-guard-late', (PFI, "if self.seen_samples >= 1:", "if self.seen_samples >= 2:"))
+M('C02', 'variance-from-pre-update', (PFI, """            self._importance_trackers.update(pfi)
+            variances = {feature: (pfi[feature] - self.importance_values[feature]) ** 2
+                         for feature in self.feature_names}
+""", """            variances = {feature: (pfi[feature] - self.importance_values.get(feature, 0)) ** 2
+                         for feature in self.feature_names}
+            self._importance_trackers.update(pfi)
+"""))
+M('C02', 'n-inner-override-ignored', (PFI, "            if n_inner_samples is None:\n                n_inner_samples = self.n_inner_samples", "            n_inner_samples = self.n_inner_samples"))
+M('C02', 'two-feature-subsets', (PFI, "feature_subset = [feature]", "feature_subset = [feature, self.feature_names[0]] if feature != self.feature_names[0] and self.seen_samples % 5 == 4 else [feature]"))
+M('C02', 'wrong-smoothing-weight', (ES, "(1 - self.alpha) * self.tracked_value + self.alpha * value_i", "(1 - self.alpha) * self.tracked_value + self.alpha * value_i * (1 if self.N else 2)"))
+M('C02', 'python-mean', (PFI, "avg_loss = np.mean(losses)", "avg_loss = sum(losses) / len(losses)"), kind='equivalent')
